@@ -590,6 +590,8 @@ class BuiltinMixin:
         if not (isinstance(it, VRef) and isinstance(st.deref(it), HIter)):
             raise Unsupported("next() of non-iterator")
         h = st.deref(it)
+        if h.live_of is not None:
+            self.od_access(st, VRef(h.live_of))
         out = []
         for s, has in self.branch(st, h.pos < z3.Length(h.seq)):
             hh = s.deref(it)
@@ -609,6 +611,8 @@ class BuiltinMixin:
         (v,) = args
         if isinstance(v, VRef) and isinstance(st.deref(v), HIter):
             h = st.deref(v)
+            if h.live_of is not None:
+                self.od_access(st, VRef(h.live_of))  # consuming a lazy live view reads the dict
             n = z3.Length(h.seq)
             rest = z3.SubSeq(h.seq, h.pos, n - h.pos)
             h.pos = zmax(h.pos, n)
@@ -1573,6 +1577,26 @@ class BuiltinMixin:
             s.ghost["popped"] = k
             s.log.append(("od-write", ref.addr))
             out.append((s, VTuple((unbox(k), unbox(v)))))
+        return out
+
+    def m_HODict_get(self, st, ref, args, kwargs):
+        default = args[1] if len(args) > 1 else NONE
+        out = []
+        for s, r in self.odict_get(st, ref, args[0]):
+            if isinstance(r, Raised) and r.exc.cls == "KeyError":
+                out.append((s, default))
+            else:
+                out.append((s, r))
+        return out
+
+    def m_HODict_pop(self, st, ref, args, kwargs):
+        out = []
+        for s, r in self.odict_get(st, ref, args[0]):
+            if isinstance(r, Raised):
+                out.append((s, args[1]) if len(args) > 1 else (s, r))
+            else:
+                for s2, o in self.odict_del(s, ref, args[0]):
+                    out.append((s2, o if o is not None else r))
         return out
 
     def m_HODict_keys(self, st, ref, args, kwargs):
